@@ -8,7 +8,7 @@ import gen as G
 import verde as vd
 
 ID = "C01"
-TRANSLATED = "ls"          # Gen/LeastSquares.lean (least_squares as a specification) is regenerated from /repo; Props/C01.lean states exactness for what it returns
+TRANSLATED = "fit"         # Gen/Fit.lean (Trend.fit, Spline.fit as specifications over Gen/Trend, Gen/Loops, Gen/LeastSquares) is regenerated from /repo; Props/C01.lean proves polynomial reproduction / exactness end to end
 FILES = ["verde/spline.py", "verde/vector.py", "verde/neighbors.py", "verde/scipygridder.py", "verde/trend.py", "verde/chain.py",
          "verde/base/least_squares.py"]
 RULE = ("corpus + seeded pairwise-distinct point sets (3..14 points quick / 30 thorough, array shapes 1-D/2-D, coordinate scales 1e-2..1e6, offsets up to "
